@@ -40,28 +40,53 @@ theorem nomatch_classify {cfg : Cfg α} {m : In α} (h : isMatch cfg m = false) 
   · simp [h]
   · split <;> (try split) <;> simp
 
+/-- the four things `check_and_send_cancellation` can do once the token is seen fired -/
+theorem onCancel_cases (cfg : Cfg α) (t : Nat) (ws : List Write) (cbs : List (α × Option α × Option α)) (n : Nat) :
+    (onCancel cfg t ws cbs n = ⟨.cancelled, t, ws ++ [.cancelNotif], cbs, n⟩
+        ∧ (cfg.writer = .open ∨ ∃ r, cfg.writer = .stalledUntil r ∧ r ≤ t))
+    ∨ (onCancel cfg t ws cbs n = ⟨.cancelled, t, ws, cbs, n⟩ ∧ cfg.writer = .closed)
+    ∨ (onCancel cfg t ws cbs n = ⟨.timedOut, cfg.D, ws, cbs, n⟩
+        ∧ (cfg.writer = .blocked ∨ ∃ r, cfg.writer = .stalledUntil r ∧ t < r ∧ cfg.D ≤ r))
+    ∨ (∃ r, onCancel cfg t ws cbs n = ⟨.cancelled, r, ws ++ [.cancelNotif], cbs, n⟩
+        ∧ cfg.writer = .stalledUntil r ∧ t < r ∧ r < cfg.D) := by
+  unfold onCancel
+  cases hw : cfg.writer with
+  | «open» => simp
+  | closed => simp
+  | blocked => simp
+  | stalledUntil r =>
+    by_cases h1 : r ≤ t
+    · simp [h1]
+    · by_cases h2 : r < cfg.D
+      · simp [h1, h2]; omega
+      · simp [h1, h2]; omega
+
 @[simp] theorem onCancel_ne_returned (cfg : Cfg α) (t ws cbs n) (p : α) :
     ((onCancel cfg t ws cbs n).outcome = .returned p) = False := by
-  simp only [onCancel]; split <;> simp
+  simp only [onCancel]; split <;> (try split) <;> (try split) <;> simp
 
 @[simp] theorem onCancel_ne_raised (cfg : Cfg α) (t ws cbs n) (r c s) :
     ((onCancel cfg t ws cbs n).outcome = .raised r c s) = False := by
-  simp only [onCancel]; split <;> simp
+  simp only [onCancel]; split <;> (try split) <;> (try split) <;> simp
 
 @[simp] theorem onCancel_callbacks (cfg : Cfg α) (t ws cbs n) :
     (onCancel cfg t ws cbs n).callbacks = cbs := by
-  simp only [onCancel]; split <;> rfl
+  simp only [onCancel]; split <;> (try split) <;> (try split) <;> rfl
 
 @[simp] theorem onCancel_consumed (cfg : Cfg α) (t ws cbs n) :
     (onCancel cfg t ws cbs n).consumed = n := by
-  simp only [onCancel]; split <;> rfl
+  simp only [onCancel]; split <;> (try split) <;> (try split) <;> rfl
 
 /-- completion time never exceeds the deadline (for every history) -/
 theorem loop_time_le_deadline (R : Int → Bool) (cfg : Cfg α) (t : Nat) (ev : List (Nat × In α))
     (ws : List Write) (cbs) (n : Nat) (ht : t ≤ cfg.D) :
     (loop R cfg t ev ws cbs n).time ≤ cfg.D := by
-  fun_induction loop R cfg t ev ws cbs n <;> simp_all [arrivesInTime, onCancel] <;> try omega
-  all_goals (first | (split <;> simp <;> omega) | (split at * <;> omega) | (rename_i h; rcases h with h | h <;> (try split at h) <;> omega) | skip)
+  fun_induction loop R cfg t ev ws cbs n
+  case case2 t ev cbs n hD hv =>
+    rcases onCancel_cases cfg t ws cbs n with ⟨e, _⟩ | ⟨e, _⟩ | ⟨e, _⟩ | ⟨r, e, _, h1, h2⟩ <;> rw [e] <;> simp <;> omega
+  all_goals simp_all [arrivesInTime]
+  all_goals try omega
+  all_goals (first | (split <;> (try split) <;> (try split) <;> simp <;> omega) | (split at * <;> omega) | (rename_i h; rcases h with h | h <;> (try split at h) <;> omega) | skip)
 
 end Verif.Model.Await
 
@@ -277,7 +302,8 @@ theorem loop_timedOut_time (R : Int → Bool) (cfg : Cfg α) (t : Nat) (ev : Lis
     (ws : List Write) (cbs) (n : Nat)
     (h : (loop R cfg t ev ws cbs n).outcome = .timedOut) : (loop R cfg t ev ws cbs n).time = cfg.D := by
   fun_induction loop R cfg t ev ws cbs n <;> simp_all [errOutcome]
-  case case2 => simp only [onCancel] at h ⊢; split at h <;> simp_all
+  case case2 t ev cbs n hD hv =>
+    rcases onCancel_cases cfg t ws cbs n with ⟨e, _⟩ | ⟨e, _⟩ | ⟨e, _⟩ | ⟨r, e, _⟩ <;> rw [e] at h ⊢ <;> simp_all
 
 /-- `CancelledError` only when the token fired, no later than the completion tick and before the deadline -/
 theorem loop_cancelled_sound (R : Int → Bool) (cfg : Cfg α) (t : Nat) (ev : List (Nat × In α))
@@ -286,20 +312,33 @@ theorem loop_cancelled_sound (R : Int → Bool) (cfg : Cfg α) (t : Nat) (ev : L
     ∃ c, cfg.cancelAt = some c ∧ c ≤ (loop R cfg t ev ws cbs n).time
       ∧ (loop R cfg t ev ws cbs n).time < cfg.D := by
   fun_induction loop R cfg t ev ws cbs n <;> simp_all [errOutcome]
-  case case2 t cbs n hD hv =>
+  case case2 t ev cbs n hD hv =>
     simp only [cancelVisible] at hv
-    simp only [onCancel] at h ⊢
-    split at hv <;> split at h <;> simp_all
+    split at hv
+    · simp at hv
+    · rename_i c hc
+      simp at hv
+      rcases onCancel_cases cfg t ws cbs n with ⟨e, _⟩ | ⟨e, _⟩ | ⟨e, _⟩ | ⟨r, e, _, h1, h2⟩ <;> rw [e] at h ⊢ <;> simp_all <;> omega
+
+/-- whether the outcome is `cancelled` -/
+def Outcome.isCancelled : Outcome α → Bool
+  | .cancelled => true
+  | _ => false
 
 /-- the loop writes nothing but (at most) one cancelled notification, exactly when it ends
-cancelled and the write stream still takes it -/
+cancelled and the write stream is not closed -/
 theorem loop_writes (R : Int → Bool) (cfg : Cfg α) (t : Nat) (ev : List (Nat × In α))
     (ws : List Write) (cbs) (n : Nat) :
     (loop R cfg t ev ws cbs n).writes =
-      ws ++ (match (loop R cfg t ev ws cbs n).outcome, cfg.writer with
-              | .cancelled, .open => [Write.cancelNotif] | _, _ => []) := by
-  fun_induction loop R cfg t ev ws cbs n <;> simp_all [errOutcome]
-  case case2 => simp only [onCancel]; cases cfg.writer <;> simp
+      ws ++ (if (loop R cfg t ev ws cbs n).outcome.isCancelled && decide (cfg.writer ≠ .closed)
+             then [Write.cancelNotif] else []) := by
+  fun_induction loop R cfg t ev ws cbs n <;> simp_all [errOutcome, Outcome.isCancelled]
+  case case2 t ev cbs n hD hv =>
+    rcases onCancel_cases cfg t ws cbs n with ⟨e, hw⟩ | ⟨e, hw⟩ | ⟨e, hw⟩ | ⟨r, e, hw, _⟩ <;> rw [e]
+    · rcases hw with hw | ⟨r, hw, _⟩ <;> simp [Outcome.isCancelled, hw]
+    · simp [Outcome.isCancelled, hw]
+    · simp [Outcome.isCancelled]
+    · simp [Outcome.isCancelled, hw]
 
 /-- a blocked write stream: the call never ends cancelled (the deadline cuts the blocked write) -/
 theorem loop_blocked_not_cancelled (R : Int → Bool) (cfg : Cfg α) (t : Nat) (ev : List (Nat × In α))
@@ -310,24 +349,30 @@ theorem loop_blocked_not_cancelled (R : Int → Bool) (cfg : Cfg α) (t : Nat) (
 /-- once the token has fired, an iteration ends at once -/
 theorem loop_time_after_cancel (R : Int → Bool) (cfg : Cfg α) (t c : Nat) (ev : List (Nat × In α))
     (ws : List Write) (cbs) (n : Nat) (hc : cfg.cancelAt = some c) (hct : c ≤ t)
-    (hw : cfg.writer ≠ .blocked) :
+    (hw : cfg.writer.prompt = true) :
     (loop R cfg t ev ws cbs n).time ≤ t := by
   unfold loop
   by_cases hD : cfg.D ≤ t
   · simp [hD]
-  · simp only [hD, cancelVisible, hc, hct, onCancel]
-    cases hw' : cfg.writer <;> simp_all
+  · simp only [hD, cancelVisible, hc, hct]
+    simp only [if_false, decide_true, if_true]
+    rcases onCancel_cases cfg t ws cbs n with ⟨e, _⟩ | ⟨e, _⟩ | ⟨e, hw'⟩ | ⟨r, e, hw', _⟩ <;> rw [e] <;> simp
+    · rcases hw' with hw' | ⟨r, hw', _⟩ <;> simp [hw', Writer.prompt] at hw
+    · simp [hw', Writer.prompt] at hw
 
 /-- cancellation latency: with a token firing at `c`, an iteration started at `t` completes no
 later than one poll period after `max c t` -/
 theorem loop_cancel_latency (R : Int → Bool) (cfg : Cfg α) (c : Nat) (hc : cfg.cancelAt = some c)
-    (hw : cfg.writer ≠ .blocked) (t : Nat) (ev : List (Nat × In α)) (ws : List Write) (cbs) (n : Nat) :
+    (hw : cfg.writer.prompt = true) (t : Nat) (ev : List (Nat × In α)) (ws : List Write) (cbs) (n : Nat) :
     (loop R cfg t ev ws cbs n).time ≤ max c t + cfg.P := by
   fun_induction loop R cfg t ev ws cbs n
   case case1 => simp; omega
-  case case2 =>
-    simp only [onCancel]
-    cases hw' : cfg.writer <;> simp_all <;> omega
+  case case2 t ev cbs n hD hv =>
+    rcases onCancel_cases cfg t ws cbs n with ⟨e, _⟩ | ⟨e, _⟩ | ⟨e, hw'⟩ | ⟨r, e, hw', _⟩ <;> rw [e] <;> simp
+    · omega
+    · omega
+    · rcases hw' with hw' | ⟨r, hw', _⟩ <;> simp [hw', Writer.prompt] at hw
+    · simp [hw', Writer.prompt] at hw
   case case3 => simp; omega
   case case4 t cbs n hD hv hDP ih =>
     by_cases h : c ≤ t + cfg.P
@@ -423,7 +468,7 @@ theorem loop_callbacks (R : Int → Bool) (cfg : Cfg α) (t : Nat) (ev : List (N
 arrives strictly before completion has been consumed -/
 theorem loop_unconsumed_late (R : Int → Bool) (cfg : Cfg α) (t : Nat) (ev : List (Nat × In α))
     (ws : List Write) (cbs) (n : Nat) (hs : Sorted ev) (ht : ∀ x ∈ ev, t ≤ x.1)
-    (hw : cfg.writer ≠ .blocked) :
+    (hw : cfg.writer.prompt = true) :
     ∀ x ∈ ev.drop ((loop R cfg t ev ws cbs n).consumed - n), (loop R cfg t ev ws cbs n).time ≤ x.1 := by
   fun_induction loop R cfg t ev ws cbs n
   case case1 t ev cbs n hD =>
@@ -433,8 +478,11 @@ theorem loop_unconsumed_late (R : Int → Bool) (cfg : Cfg α) (t : Nat) (ev : L
     simp; omega
   case case2 =>
     simp only [onCancel_consumed, Nat.sub_self, List.drop_zero]
-    simp only [onCancel]
-    cases hw' : cfg.writer <;> simp_all <;> exact ht
+    rcases onCancel_cases cfg _ ws _ _ with ⟨e, _⟩ | ⟨e, _⟩ | ⟨e, hw'⟩ | ⟨r, e, hw', _⟩ <;> rw [e]
+    · simpa using ht
+    · simpa using ht
+    · rcases hw' with hw' | ⟨r, hw', _⟩ <;> simp [hw', Writer.prompt] at hw
+    · simp [hw', Writer.prompt] at hw
   case case3 => simp
   case case4 ih => simp
   case case5 t cbs n hD hv lim a m rest hcons t' p hcl =>
